@@ -84,6 +84,22 @@ chk("C11", "model_checking",
     "complete enumeration of programs x operand lists against a reference evaluator plus trace invariants",
     "DESIGN.md §5 C11")
 
+chk("C06", "model_checking",
+    "Explicit-state search over histories of record operations (read/assign $i for positive, zero, negative, beyond-NF and huge i; NF assignments; $0 assignment; FS/OFS/OUTPUTMODE changes; sub/gsub on fields; $i++ / +=; the getline forms) from 19 (thorough 42) start states: quick = every history of depth <=3 over 40 operations, thorough = depth 3 over 106 operations plus breadth-first depth 5 de-duplicated on the model state with differential replay of discarded equivalents; each history becomes one program replayed from scratch on the real interpreter, observed through a native function (NF, $0, every field, re-read three times) in an eager and a lazy-split variant, compared with the check's own record model; separately the FS splitting rules on every string of length <=5 (6) over 5 symbols x 8 FS values x 3 read orders and every (FS at read, FS assigned later) pair.",
+    "Own record model written from the statement; blanks for FS=\" \" are space/tab/newline only; NF=2.7 raw read-back is pinned upstream and not in the alphabet.",
+    "explicit-state search over operation histories of the real record state against a reference record model",
+    "DESIGN.md §5 C06")
+chk("C08", "model_checking",
+    "Every input string of length <=6 (thorough 7) over a per-configuration alphabet {a, sep, quote, LF, CR, #, space, multi-byte char} in 11 CSV/TSV configurations (separator , | e-acute tab; comment none/#/e-acute; header on/off; via Config and via INPUTMODE), with and without BOM, delivered in every chunking x 2 EOF styles x 2 reading paths: fields/NF against encoding/csv (lenient quotes) on the BOM-free bytes, $0 against the record's byte extent, NR, header names/FIELDS/@name per file, chunking independence; $0=s and split(s,a) re-parse; header mode over pairs of files; records at the 64 KiB buffer edge; round trip of every list of <=3 values of length <=2 (3) through print and $0 rebuild in CSV/TSV output mode with 4 separators.",
+    "encoding/csv is the field oracle; lone CR before EOF and CRLF inside quoted fields accepted in either form as the statement leaves them open.",
+    "complete enumeration of inputs x chunkings x configurations against encoding/csv, plus write/read round trips",
+    "DESIGN.md §5 C08")
+chk("C16", "model_checking",
+    "Programs as sets of usage atoms (scalar use, array use, length(v), v passed to parameter j of function i, constant or expression passed, zero-argument call) over 5 universes (2 functions x 2 parameters, 3 x 1, deep forwarding chains, expression arguments): every atom set up to size 3-5 (thorough 4-6), which yields every call graph incl. self/mutual recursion and calls with fewer arguments; verdict compared with an independent union-find unifier; accepted programs executed and compared with a direct simulation (arrays by reference, scalars copied) and the reference evaluator; every permutation of the top-level items and 4 consistent renamings must keep verdict and behaviour; resolver map-iteration orders explored through the permutation hook with <=2 deviations, verdict must not change.",
+    "Programs outside the property's antecedent (undefined functions, too many arguments, name clashes) are not generated; which error message is reported is C19's business.",
+    "complete enumeration of small programs against a union-find type unifier, plus permutation/renaming metamorphosis and deviation-bounded map-order exploration",
+    "DESIGN.md §5 C16")
+
 NOT_YET = "check not built yet in this round (work in progress; see DESIGN.md §5 for the planned exploration)"
 ALL = ["C%02d" % i for i in range(1, 21)]
 
